@@ -21,21 +21,23 @@ import (
 func init() { Register(&Check{ID: "C07", Level: "exploration", Run: runC07}) }
 
 type c07Case struct {
-	OV      []string // original vesting per denom (denoms: uc4e, ubb)
-	Dur     int64    // vesting duration in seconds
-	Elapsed int64    // seconds since vesting start (may be negative: not started)
-	Amount  []string // split amount per denom ("" = not split)
-	Deleg   string   // delegated vesting amount of uc4e ("" none)
-	Op      string   // split | move | movedenoms:<mask>
-	Second  string   // second split in the same block: "" | "s:<amt>" (from sender) | "r:<amt>" (from recipient)
-	Family  string
+	OV         []string // original vesting per denom (denoms: uc4e, ubb)
+	Dur        int64    // vesting duration in seconds
+	Elapsed    int64    // seconds since vesting start (may be negative: not started)
+	Amount     []string // split amount per denom ("" = not split)
+	Deleg      string   // delegated vesting amount of uc4e ("" none)
+	DelegEarly bool     // the delegation happened 90 days before the operation instead of in its block
+	Undeleg    string   // part of the delegation that was undelegated again (unbonding completed) before the operation
+	Op         string   // split | move | movedenoms:<mask>
+	Second     string   // second split in the same block: "" | "s:<amt>" (from sender) | "r:<amt>" (from recipient)
+	Family     string
 }
 
 var c07Denoms = []string{harness.Denom, denomB}
 
 type c07Stats struct {
-	cases, succeeded, compensation, partial, delegated, multiDenom, chained int64
-	maxDrift                                                                int64
+	cases, succeeded, compensation, partial, delegated, undelegated, multiDenom, chained int64
+	maxDrift                                                                             int64
 }
 
 func bigOf(s string) sdk.Int { return mustInt(s) }
@@ -75,10 +77,28 @@ func c07Run(w *harness.World, base sdk.Context, cs c07Case, st *c07Stats, report
 		if !found {
 			panic("validator missing")
 		}
-		if _, err := app.StakingKeeper.Delegate(ctx, from, bigOf(cs.Deleg), stakingtypes.Unbonded, val, true); err != nil {
+		dctx := ctx
+		if cs.DelegEarly {
+			// delegated 90 days before the operation, when all of the original vesting was still
+			// vesting: by now the delegated-vesting amount exceeds what is still vesting
+			dctx = ctx.WithBlockTime(now.Add(-90 * 24 * time.Hour))
+		}
+		if _, err := app.StakingKeeper.Delegate(dctx, from, bigOf(cs.Deleg), stakingtypes.Unbonded, val, true); err != nil {
 			panic(err)
 		}
 		atomic.AddInt64(&st.delegated, 1)
+		if cs.Undeleg != "" {
+			// an earlier undelegation whose unbonding period is over: done on the same branch at block
+			// times long before the operation (undelegate 60 days earlier, complete 30 days earlier)
+			early := ctx.WithBlockTime(now.Add(-60 * 24 * time.Hour))
+			if _, err := app.StakingKeeper.Undelegate(early, from, harness.ValAddr(), sdk.NewDecFromInt(bigOf(cs.Undeleg))); err != nil {
+				panic(err)
+			}
+			if _, err := app.StakingKeeper.CompleteUnbonding(ctx.WithBlockTime(now.Add(-30*24*time.Hour)), from, harness.ValAddr()); err != nil {
+				panic(err)
+			}
+			atomic.AddInt64(&st.undelegated, 1)
+		}
 	}
 	lockedPre := app.BankKeeper.LockedCoins(ctx, from)
 	spendPre := app.BankKeeper.SpendableCoins(ctx, from)
@@ -305,6 +325,30 @@ func c07Structured(emit func(c07Case)) {
 					}
 					emit(c07Case{OV: []string{fmt.Sprint(ov)}, Dur: dur, Elapsed: el, Deleg: fmt.Sprint(dl), Op: "move", Family: "delegated-move"})
 				}
+				// delegation larger than what is vesting (delegated-free tracked too), and delegations that
+				// were partly undelegated again before the operation; second denomination still locked
+				for _, dl := range []int64{ov + 3, ov} {
+					for _, ud := range []int64{0, 1, dl / 2, dl} {
+						if ud > 0 && ud > dl {
+							continue
+						}
+						c := c07Case{OV: []string{fmt.Sprint(ov), "7"}, Dur: dur, Elapsed: el, Deleg: fmt.Sprint(dl), DelegEarly: true, Family: "delegated-then-undelegated"}
+						if ud > 0 {
+							c.Undeleg = fmt.Sprint(ud)
+						}
+						for _, am := range [][]string{{"", "1"}, {"", "7"}, {"1", ""}, {fmt.Sprint(ov), "7"}} {
+							cc := c
+							cc.Amount, cc.Op = am, "split"
+							emit(cc)
+						}
+						cm := c
+						cm.Op = "move"
+						emit(cm)
+						cd := c
+						cd.Op = "movedenoms:2"
+						emit(cd)
+					}
+				}
 				for a := int64(1); a <= ov; a++ {
 					for _, sec := range []string{"s:1", fmt.Sprintf("s:%d", ov/3+1), "r:1", fmt.Sprintf("r:%d", a)} {
 						emit(c07Case{OV: []string{fmt.Sprint(ov)}, Dur: dur, Elapsed: el, Amount: []string{fmt.Sprint(a)}, Op: "split", Second: sec, Family: "chain"})
@@ -444,9 +488,9 @@ func runC07(rc *RunCtx) {
 	rc.Level = "exploration"
 	rc.Cov = map[string]interface{}{
 		"evaluations": int(st.cases), "distinct_nontrivial": int(st.succeeded),
-		"rule":    "complete enumeration of the listed families (dense: every original vesting 1..N x every amount 1..OV x elapsed grid x 4 durations; structured: two denominations, delegated vesting, move / move-by-denoms for every denom subset, chains of two splits; boundary: magnitudes 1e18..1e30 with amounts on every rounding edge of amount*OV/V). Every case is a distinct input; non-trivial = the split/move was accepted and all post-conditions were evaluated.",
+		"rule":    "complete enumeration of the listed families (dense: every original vesting 1..N x every amount 1..OV x elapsed grid x 4 durations; structured: two denominations, delegated vesting (also above what is vesting, also partly undelegated again before the operation), move / move-by-denoms for every denom subset, chains of two splits; boundary: magnitudes 1e18..1e30 with amounts on every rounding edge of amount*OV/V). Every case is a distinct input; non-trivial = the split/move was accepted and all post-conditions were evaluated.",
 		"samples": samples, "families": fam, "cases_with_partial_amount": int(st.partial), "cases_taking_compensation_branch": int(st.compensation),
-		"cases_with_delegated_vesting": int(st.delegated), "cases_with_two_denoms": int(st.multiDenom), "chained_second_splits": int(st.chained),
+		"cases_with_delegated_vesting": int(st.delegated), "cases_with_an_earlier_completed_undelegation": int(st.undelegated), "cases_with_two_denoms": int(st.multiDenom), "chained_second_splits": int(st.chained),
 		"max_schedule_drift_observed": int(st.maxDrift), "dense_max_original_vesting": maxOV, "exhaustive": true,
 	}
 	rc.Assume = []string{"message level: the handler from the real router on store branches; vesting accounts built with the SDK constructors; delegations through the real staking keeper"}
